@@ -305,7 +305,7 @@ def run(c):
 
     t_budget = dict(quick=dict(nscripts=45, nnutils=14, nsched=110, nfault=16, amp=10), thorough=dict(nscripts=700, nnutils=160, nsched=4000, nfault=220, amp=120))[c.tier]
     # wall-clock boxes per real-process stream (seconds): the case lists are deterministic, a loaded machine just gets through a shorter prefix
-    box = dict(quick=dict(m1=12, m2=8, m3=5, loc=4, sched=12, width=5, shared=5, fault=10), thorough=dict(m1=240, m2=120, m3=90, loc=40, sched=300, width=30, shared=30, fault=200))[c.tier]
+    box = dict(quick=dict(m1=10, m2=6, m3=4, loc=3, sched=10, width=4, shared=4, fault=8), thorough=dict(m1=200, m2=100, m3=80, loc=40, sched=240, width=30, shared=30, fault=180))[c.tier]
     import random
     R = {k: random.Random(c.rng.getrandbits(64)) for k in ('m1', 'm2', 'm3', 'loc', 'x', 'sched', 'shared', 'fault', 'explore', 'search')}
     c.search_rng = R['search']
@@ -334,13 +334,24 @@ def run(c):
     cases = []
     for _ in range(t_budget['nscripts']):
         cases.append(gen_evaluable(R['m1']))
-    for tag, outs, n in boxed('m1', cases, 8):
+    for icase, (tag, outs, n) in enumerate(boxed('m1', cases, 8)):
         flags = dict(_simplify=R['m1'].random() < .85, _optimize=R['m1'].random() < .85)
+        twice = icase % 4 == 3      # `evaluable.compile` with cached constant intermediates, called twice with different arguments
+        if twice:
+            tag += '+compiled-twice'
+            arg = ev.Argument('c16arg', (), int)
+            outs = tuple(o * ev.astype(ev.appendaxes(arg, o.shape), o.dtype) if o.ndim else o * ev.astype(arg, o.dtype) for o in outs) + outs
+            def evaluate():
+                f = ev.compile(outs, **flags)
+                return canon((f({'c16arg': numpy.array(2)}), f({'c16arg': numpy.array(3)})))
+        else:
+            def evaluate():
+                return canon(ev.eval_once(outs, **flags))
         with quiet():
             HOOK[0] = None
             try:
                 with parallel.maxprocs(1):
-                    ref = canon(ev.eval_once(outs, **flags))
+                    ref = evaluate()
             except Exception as e:
                 c.count('m1:serial-exception:' + type(e).__name__); continue
             nprocs = R['m1'].choice([2, 3, 4, 8])
@@ -348,7 +359,7 @@ def run(c):
             HOOK[0] = delay_hook if R['m1'].random() < .7 else count_hook
             with Capture() as cap, parallel.maxprocs(nprocs):
                 try:
-                    got = canon(ev.eval_once(outs, **flags))
+                    got = evaluate()
                 except Exception as e:
                     got = ('exception', type(e).__name__, str(e)[:200])
             HOOK[0] = None
@@ -364,7 +375,7 @@ def run(c):
         if got != ref:
             m1_fail += 1
             c.failing_input('parallel-result-differs:evaluable', 'evaluable with outer loop(s) gives a different result under maxprocs(%d) than under maxprocs(1) (%s)' % (nprocs, tag), replay)
-        elif len(pscripts) == 1 and pscripts[0].count('parallel.ctxrange') == 1 and pscripts[0].count('_C16Probe.evalf') == 1 and any(counts[k] != 1 for k in range(n)):
+        elif not twice and len(pscripts) == 1 and pscripts[0].count('parallel.ctxrange') == 1 and pscripts[0].count('_C16Probe.evalf') == 1 and any(counts[k] != 1 for k in range(n)):
             m1_fail += 1
             c.failing_input('iteration-not-exactly-once', 'loop iterations executed %s times under maxprocs(%d)' % ([counts[k] for k in range(n)], nprocs), replay)
         else:
@@ -432,18 +443,26 @@ def run(c):
 
     # ------------------------------------------------------------------ stream M4: locate
     loc_fail = 0; loc_n = 0
-    for _ in boxed('loc', range(6 if quick else 60), 2):
+    for iloc in boxed('loc', range(7 if quick else 60), 4):
         shape = [R['loc'].choice([1, 2, 3]) for _ in range(R['loc'].choice([1, 2]))]
-        topo, geom = mesh.rectilinear([numpy.arange(k + 1) * 1. for k in shape])
-        npts = R['loc'].choice([1, 2, 3, 5, 9])
-        pts = numpy.array([[R['loc'].randint(0, 8 * k) / 8. for k in shape] for _ in range(npts)])
+        npts = R['loc'].choice([1, 2, 3, 5])
         mode = R['loc'].choice(['inside', 'inside', 'missing-raise', 'missing-skip'])
+        if iloc < 4:      # corpus: many points (every worker gets some), one case per mode
+            shape = [2, 2]; npts = 6; mode = ['inside', 'missing-skip', 'missing-raise', 'missing-raise'][iloc]
+        topo, geom = mesh.rectilinear([numpy.arange(k + 1) * 1. for k in shape])
+        # a non-affine geometry, so that StructuredTopology._locate does not take its affine shortcut but the generic Newton search
+        # of Topology._locate (every point's computation is independent of the process that performs it: results are bit-identical)
+        g = numpy.stack([geom[0] + 0.125 * geom[-1] * geom[-1], geom[-1] + 0.0625 * geom[0] * geom[0]][:len(shape)]) if len(shape) == 2 else geom + 0.125 * geom * geom
+        with quiet(), parallel.maxprocs(1):
+            cand = topo.sample('uniform', 3).eval(g)
+        pts = numpy.array([cand[R['loc'].randrange(len(cand))] for _ in range(npts)])
         if mode != 'inside':
-            for r_ in R['loc'].sample(range(npts), R['loc'].randint(1, min(2, npts))):
-                pts[r_, 0] = shape[0] + 1.5
-        g = geom * 2. + 1.
+            # corpus cases 2,3: only the very first point is missing, so that it is (almost surely) claimed by a child, which the parent
+            # is still busy forking the others: the outcome must nevertheless be the serial one (LocateError naming that point)
+            for r_ in ([0] if iloc in (2, 3) else R['loc'].sample(range(npts), R['loc'].randint(1, min(2, npts)))):
+                pts[r_, 0] = 100. + r_
         def locate():
-            smp = topo.locate(g, pts * 2. + 1., tol=1e-9, skip_missing=(mode == 'missing-skip'))
+            smp = topo.locate(g, pts, tol=1e-9, skip_missing=(mode == 'missing-skip'))
             return (smp.eval(geom), smp.npoints)
         def outcome(nprocs):
             with quiet(), parallel.maxprocs(nprocs):
@@ -452,7 +471,7 @@ def run(c):
                 except Exception as e:
                     return ('exception', type(e).__name__, str(e)[:200])
         ref = outcome(1)
-        nprocs = R['loc'].choice([2, 3, 4, 8])
+        nprocs = R['loc'].choice([2, 3, 4, 8]) if iloc >= 4 else [4, 3, 8, 3][iloc]
         got = outcome(nprocs)
         loc_n += 1; c.case(('loc', tuple(shape), pts.tobytes(), mode, nprocs), nontrivial=npts >= 2); c.count('locate:' + mode)
         if got != ref:
@@ -568,6 +587,16 @@ def run(c):
     for k, mp in itertools.product([None, 0, 1, 2, 3, 4, 5, 9], [1, 2, 3, 4]):
         ask('width', (k, mp), 'width|%s|%d' % ('none' if k is None else k, mp))
 
+    # ------------------------------------------------------------------ exploration: model vs its own specification on random schedules with faults (sanity of driver/model glue)
+    for _ in range(40 if quick else 600):
+        N = R['explore'].choice([1, 2, 3]); n = R['explore'].choice([0, 1, 2, 3])
+        locked = R['explore'].random() < .7
+        code = R['explore'].choice(['t a0 m0:1,1 r0', 'a0 m0:2,0 r0 t a1 m1:0,1 r1', 'a0 a1 m0:1,0 m1:1,2 r1 r0 p0,1:7,1', 'p0,1:3,3 t']) if locked else R['explore'].choice(['m0:1,1', 't m0:1,0 a0 r0', 'a1 m0:1,1 r1'])
+        L = R['explore'].randint(0, 120)
+        evs = ['s%d' % R['explore'].randrange(N) for _ in range(L)]
+        if R['explore'].random() < .2 and evs: evs[R['explore'].randrange(len(evs))] = R['explore'].choice('kx') + str(R['explore'].randrange(N))
+        evs += ['s%d' % (k % N) for k in range(60 * N)]
+        ask('explore', None, 'sched|%d|%d|2|4|%s|%s' % (N, n, code, ' '.join(evs)))
     # ------------------------------------------------------------------ run the model
     c.log('asking the model: %d requests' % len(reqs))
     ans = c.model([r[2] for r in reqs])
@@ -590,7 +619,7 @@ def run(c):
         x_fail += 1
         # search: run the script's expression family under maxprocs with the amplifier is not possible from the text alone for nutils-level scripts;
         # re-execute the captured script itself (its globals are gone) is not possible either, so search through fresh expressions of the same tag
-        found = search_race(c, tag)
+        found = search_locate(c) if what == 'locate' else search_race(c, tag)
         if not found:
             c.broken_no_input('lockOK:' + what, 'Lean rejects the lock discipline of a generated script (%s; %s)' % (f[3], tag), dict(script=src, answer=a, tag=tag))
     c.obligation('lockOK:generated-scripts', x_fail == 0, 'correspondence', '%d scripts + _locate' % len(by.get('lockok', [])))
@@ -633,6 +662,9 @@ def run(c):
         if complete and sorted(its) != list(range(n)):
             s_fail += 1
             c.failing_input('range-incomplete-but-returns', '`with fork` returned normally although only iterations %s of range(%d) were claimed' % (sorted(its), n), replay); continue
+        if r.get('survivors'):
+            s_fail += 1
+            c.failing_input('children-survive-parent-exception', 'the body of `with fork` raised in the parent but %d child process(es) were not killed' % len(r['survivors']), replay); continue
         faulted = any(t in ('kill', 'raise') for t in r['trace'])
         if complete and faulted:
             s_fail += 1
@@ -685,14 +717,22 @@ def run(c):
                     with parallel.fork(4) as inner:
                         sh = parallel.shempty(3, dtype=int)
                         nested[procid * 4 + inner] = 1 + 1000 * int(sh.base is None)   # plain allocation inside a fork body / under maxprocs(1)
-            return sum(seen), truth, list(nested)
+                entered = multiprocessing.RawValue('i', 0); elock = multiprocessing.Lock()
+                if k is not None:
+                    with parallel.ctxrange('c16', k) as rng_:       # ctxrange forks min(nitems, maxprocs) processes
+                        with elock: entered.value += 1
+                        for _i in rng_: time.sleep(0.001)
+            return sum(seen), truth, list(nested), entered.value
         with quiet():
-            r_ = in_subprocess(widths, timeout=20.)
+            r_ = in_subprocess(widths, timeout=90.)
         c.case(('width', k, mp)); c.count('width:cases')
         want = int(a)
         if r_[0] != 'ok':
             f_fail += 1; c.broken_no_input('corr:fork-width', 'fork(%r) under maxprocs(%d): %r' % (k, mp, r_), dict(k=k, maxprocs=mp, real=r_)); continue
-        nseen, truth, nested = r_[1]
+        nseen, truth, nested, entered = r_[1]
+        if k is not None and entered != want:
+            f_fail += 1
+            c.broken_no_input('corr:fork-width', 'ctxrange(%r items) under maxprocs(%d) ran its body in %d processes, model %d' % (k, mp, entered, want), dict(k=k, maxprocs=mp, entered=entered, model=want)); continue
         if want > 1:    # really forked: inside the body every fork is a no-op and allocation is process-local
             want_nested = [1001 if (q % 4 == 0 and q // 4 < want) else 0 for q in range(64)]
         else:           # _DontFork does not enter maxprocs(1): the inner fork(4) is an ordinary fork under maxprocs(mp)
@@ -723,7 +763,7 @@ def run(c):
                         a.flat[procid] = procid + 1
             return meta, [complex(v).real for v in a.ravel()]
         with quiet():
-            r_ = in_subprocess(sharing, timeout=20.)
+            r_ = in_subprocess(sharing, timeout=90.)
         c.case(('sh', mp, repr(shape), dtype.__name__, zeros)); c.count('shared:cases')
         eshape = tuple(shape) if isinstance(shape, (tuple, list)) else (int(shape),)
         size = int(numpy.prod(eshape)) if eshape else 1
@@ -769,7 +809,7 @@ def run(c):
             HOOK[0] = hook
             with quiet(), parallel.maxprocs(nprocs):
                 return canon(ev.eval_once(outs))
-        r_ = in_subprocess(session, timeout=40.)
+        r_ = in_subprocess(session, timeout=120.)
         fi_n += 1
         did_fire = bool(fired.value)
         c.case(('fault', role, kind, ordn, n, nprocs, shapekind), nontrivial=did_fire); c.count('fault:%s-%s:%s' % (role, kind, 'fired' if did_fire else 'not-triggered')); c.count('fault:outcome:' + r_[0])
@@ -793,20 +833,8 @@ def run(c):
     c.obligation('corr:fault-injection', fi_fail == 0, 'correspondence', '%d runs' % fi_n)
     c.log('done: corr:fault-injection')
 
-    # ------------------------------------------------------------------ exploration: model vs its own specification on random schedules with faults (sanity of driver/model glue)
-    ex_req = []
-    for _ in range(40 if quick else 600):
-        N = R['explore'].choice([1, 2, 3]); n = R['explore'].choice([0, 1, 2, 3])
-        locked = R['explore'].random() < .7
-        code = R['explore'].choice(['t a0 m0:1,1 r0', 'a0 m0:2,0 r0 t a1 m1:0,1 r1', 'a0 a1 m0:1,0 m1:1,2 r1 r0 p0,1:7,1', 'p0,1:3,3 t']) if locked else R['explore'].choice(['m0:1,1', 't m0:1,0 a0 r0', 'a1 m0:1,1 r1'])
-        L = R['explore'].randint(0, 120)
-        evs = ['s%d' % R['explore'].randrange(N) for _ in range(L)]
-        if R['explore'].random() < .2 and evs: evs[R['explore'].randrange(len(evs))] = R['explore'].choice('kx') + str(R['explore'].randrange(N))
-        evs += ['s%d' % (k % N) for k in range(60 * N)]
-        ex_req.append('sched|%d|%d|2|4|%s|%s' % (N, n, code, ' '.join(evs)))
-    ex_ans = c.model(ex_req)
     ex_fail = 0
-    for line, a in zip(ex_req, ex_ans):
+    for _, line, a in by.get('explore', []):
         f = dict(x.split('=', 1) for x in a.split('|'))
         its = [int(x.split(':')[1]) for x in f['claimed'].split()]
         c.count('explore:disc=%s:outcome=%s' % (f['disc'], f['outcome'].split(':')[0]))
@@ -817,7 +845,7 @@ def run(c):
         if bad:
             ex_fail += 1
             c.broken_no_input('explore:model-vs-theorems', 'the executable model contradicts a proved theorem on a random schedule (driver / model glue broken)', dict(request=line, answer=a))
-    c.obligation('explore:model-runs-satisfy-theorems', ex_fail == 0, 'exploration', '%d random schedules with faults' % len(ex_req))
+    c.obligation('explore:model-runs-satisfy-theorems', ex_fail == 0, 'exploration', '%d random schedules with faults' % len(by.get('explore', [])))
     c.log('done: explore:model-runs-satisfy-theorems')
 
     for b in broken:
@@ -826,10 +854,38 @@ def run(c):
             c.broken_no_input('proof', b, dict(detail=b))
 
 
+def search_locate(c):
+    """failing-input search for `Topology._locate`: many points, several processes, a few repetitions"""
+    from nutils import parallel, mesh, function
+    topo, geom = mesh.rectilinear([numpy.arange(4.), numpy.arange(4.)])
+    g = numpy.stack([geom[0] + 0.125 * geom[1] * geom[1], geom[1] + 0.0625 * geom[0] * geom[0]])
+    with quiet(), parallel.maxprocs(1):
+        cand = topo.sample('uniform', 3).eval(g)
+    for rep in range(4 if c.tier == 'quick' else 20):
+        pts = numpy.array([cand[c.search_rng.randrange(len(cand))] for _ in range(32)])
+        res = []
+        for nprocs in (1, 4):
+            with quiet(), parallel.maxprocs(nprocs):
+                try:
+                    smp = topo.locate(g, pts, tol=1e-9)
+                    res.append(canon((smp.eval(geom), smp.npoints)))
+                except Exception as e:
+                    res.append(('exception', type(e).__name__, str(e)[:200]))
+        c.count('search:locate-runs')
+        if res[0] != res[1]:
+            c.failing_input('parallel-result-differs:locate', 'search after a broken obligation: Topology.locate of 32 points gives a different outcome under maxprocs(4) than under maxprocs(1)',
+                            dict(stream='search-locate', points=pts.tolist(), serial=res[0], parallel=res[1]))
+            return True
+    return False
+
+
 def search_race(c, tag, rounds=None):
     """failing-input search used when the static discipline or a proof is broken: evaluate fresh loop expressions under maxprocs with the
     race amplifier and random delays; report a real wrong result if one shows up"""
     from nutils import parallel, evaluable as ev
+    if getattr(c, '_race_searched', None) is not None:
+        return c._race_searched       # one search per run: further broken obligations share its verdict
+    c._race_searched = False
     rounds = rounds or (25 if c.tier == 'quick' else 150)
     for k in range(rounds):
         t, outs, n = gen_evaluable(c.search_rng, probe=False)
@@ -846,5 +902,6 @@ def search_race(c, tag, rounds=None):
         if got != ref:
             c.failing_input('parallel-result-differs:amplified', 'search after a broken obligation (%s): with non-atomic in-place adds the result under maxprocs differs from serial (%s)' % (tag, t),
                             dict(stream='search', tag=t, serial=ref, parallel=got, scripts=[s for s in cap.scripts if 'ctxrange' in s]))
+            c._race_searched = True
             return True
     return False
